@@ -13,7 +13,7 @@ THEOREMS = [(M, "NQ.C08." + n) for n in [
     "transpile_simulates_final_partial", "pad_is_set", "set_writes_gen",
     "templates_eq_nvdecomp", "expandSound_of_C07", "transpile_simulates_C07_partial",
     "mov_unknown_emits_ec", "mov_sdk_shape_in_qstatic", "f10_nonQ_register_asserts", "sets_only_scratch_gen", "seeded_scratch_registers",
-    "seeded_cache_violates_scratch_ok", "seeded_index_loop_head", "branch_to_line_zero", "seeded_line_zero",
+    "seeded_cache_violates_scratch_ok", "seeded_qfree_register_live", "seeded_index_loop_head", "branch_to_line_zero", "seeded_line_zero",
     "transpile_pure", "transpile_retry_pure", "second_pass_identity_witness",
     "f10_counterexample_asserts", "f10_counterexample_stale", "f26_fixed_witness"]]
 TRANSLATORS = ["nv_expand", "nv_decomp"]
@@ -285,6 +285,17 @@ def run(ctx):
     for dbg in (False, True):
         oracle("corpus-cc-same-control-label", w_dw, 4, debug=dbg)
         syntactic("corpus", w_dw, dbg, False)
+    # seeded change C08_12: a Q register stays live across `qfree` (its qubit is re-allocated through it
+    # later, no new `set`); a carbon-carbon gate in between must not borrow it
+    QA, QF, INI = "core.QAllocInstruction", "core.QFreeInstruction", "core.InitInstruction"
+    w_free = [H.ins(SET, Qr(2), H.imm(3)), H.ins(QA, Qr(2)), H.ins(INI, Qr(2)), H.ins("vanilla.GateHInstruction", Qr(2)),
+              H.ins(SET, Qr(0), H.imm(1)), H.ins(SET, Qr(1), H.imm(2)), H.ins(SET, Rr(0), H.imm(7)),
+              H.ins(QF, Qr(2)), H.ins(CN, Qr(0), Qr(1)),
+              H.ins(QA, Qr(2)), H.ins(INI, Qr(2)), H.ins("vanilla.GateXInstruction", Qr(2)),
+              H.ins(CP, Qr(0), Qr(1)), H.ins("vanilla.GateHInstruction", Qr(2))]
+    for dbg in (False, True):
+        oracle("corpus-free-then-realloc", w_free, 4, debug=dbg)
+        syntactic("corpus", w_free, dbg, False)
     oracle("corpus-F10-assert", w_assert, 3, _G([(5, 0, 0)]))
     oracle("corpus-F10-stale", w_stale, 3, _G([(6, 0, 0)]))
     # F26 (fixed): branch across a carbon-carbon gate with debug markers
@@ -310,10 +321,12 @@ def run(ctx):
         for f in g.features:
             res.count("feature:" + f)
         dbg = rng.random() < 0.5
-        # run-time-id movs: inside QStatic only when the source register was just set to 0 (own tag)
+        # run-time-id movs: inside QStatic only when the source register was just set to 0 (own tag);
+        # free-then-realloc: inside QStatic unless a label lies between the `set` and the re-allocation (own tag)
         tag = "struct-load" if loads else ("struct-movR" if "mov-runtime-ids" in g.features else
                                            ("struct-tgt" if any(f.startswith("target-is-") for f in g.features)
-                                            else "struct"))
+                                            else ("struct-realloc" if "free-then-realloc-same-register" in g.features
+                                                  else "struct")))
         syntactic(tag, js, dbg, rng.random() < 0.3)
         oracle(tag, js, nq, g, debug=dbg)
     # ---- loops whose head is instruction 0 (taken backward branch to line 0), in a second subroutine
